@@ -1361,3 +1361,9 @@ THEOREMS = list(THEOREMS) + ['SRC_global_slice_subset', 'SRC_changed_class']
 COQ_PROPS = list(COQ_PROPS) + ['Props/SRCstate.v']
 THEOREMS = list(THEOREMS) + ['SRC_change_class', 'SRC_simplify', 'SRC_to_content_holds']
 TABLES = sorted(set(list(TABLES) + ['t_src_state', 't_content', 't_cli']))
+
+
+# source tie, stage D (integrator): _insert_slice TRANSLATED in state-passing form and proved a refinement of insert_slice_k for the five
+# varying classes (Props/SRCinsert.v); the ('global','const') path is translated and executed against the code only
+COQ_PROPS = list(COQ_PROPS) + ['Props/SRCinsert.v']
+THEOREMS = list(THEOREMS) + ['SRC_insert_slice', 'SRC_insert_non_slice', 'SRC_insert_sample']
